@@ -7,21 +7,141 @@ pub const L_TYPE: &str = "type L = | Nil | Cons Int L\n";
 
 #[derive(Clone, Debug)]
 pub struct Family {
-    pub name: &'static str,
+    pub name: String,
     /// tail = must run in constant stack
     pub tail: bool,
+    /// fewer small sizes (the context families: the interesting part is constancy at large n)
+    pub light: bool,
 }
 
-pub const STACK_FAMILIES: &[Family] = &[
-    Family { name: "nontail-direct", tail: false },
-    Family { name: "nontail-mutual", tail: false },
-    Family { name: "nontail-closure", tail: false },
-    Family { name: "tail-direct", tail: true },
-    Family { name: "tail-mutual", tail: true },
-    Family { name: "tail-closure", tail: true },
-    Family { name: "tail-overapply", tail: true },
-    Family { name: "tail-partial", tail: true },
+const BASE_FAMILIES: &[(&str, bool)] = &[
+    ("nontail-direct", false),
+    ("nontail-mutual", false),
+    ("nontail-closure", false),
+    ("tail-direct", true),
+    ("tail-mutual", true),
+    ("tail-closure", true),
+    ("tail-overapply", true),
+    ("tail-partial", true),
 ];
+
+/// One family per tail context of the language (vm/src/compiler.rs: every place where
+/// `tail_position` is handed on), plus mutual recursion through several of them.
+pub const CONTEXT_FAMILIES: &[&str] = &[
+    "tail-or-rhs",
+    "tail-and-rhs",
+    "tail-if-then",
+    "tail-match-literal",
+    "tail-match-constructor",
+    "tail-match-record",
+    "tail-match-variable",
+    "tail-let-body",
+    "tail-block-last",
+    "tail-lambda-body",
+    "tail-nested-bool",
+    "tail-mutual-contexts",
+    "tail-mutual-bool",
+];
+
+/// All stack families of a run: the fixed ones and `n_random` random compositions of tail contexts.
+pub fn stack_families(seed: u64, n_random: u64) -> Vec<Family> {
+    let mut v: Vec<Family> = BASE_FAMILIES.iter().map(|(n, t)| Family { name: n.to_string(), tail: *t, light: false }).collect();
+    for n in CONTEXT_FAMILIES {
+        v.push(Family { name: n.to_string(), tail: true, light: true });
+    }
+    for i in 0..n_random {
+        v.push(Family { name: format!("tail-random:{}", seed.wrapping_mul(7919).wrapping_add(i)), tail: true, light: true });
+    }
+    v
+}
+
+pub fn is_tail(name: &str) -> bool {
+    name.starts_with("tail-")
+}
+
+fn pad(k: usize) -> String {
+    " ".repeat(k)
+}
+
+/// Expression whose value is that of the recursive call `loop (n #Int- 1)` (for n > 0), nested in
+/// `d` random tail contexts. The text starts right after an opening parenthesis at column `ind`;
+/// continuation lines are indented to `ind`.
+fn nest(rng: &mut gv::rng::Rng, d: u64, ind: usize, used: &mut Vec<&'static str>) -> String {
+    if d == 0 {
+        return "loop (n #Int- 1)".into();
+    }
+    let k = rng.below(11);
+    let inner_ind = ind + 4;
+    let mut sub = |rng: &mut gv::rng::Rng, used: &mut Vec<&'static str>| format!("\n{}({})", pad(inner_ind), nest(rng, d - 1, inner_ind, used));
+    let t = "(0 #Int< 1)";
+    let f = "(1 #Int< 0)";
+    let _ = t;
+    match k {
+        0 => {
+            used.push("or-rhs");
+            format!("(n #Int< 0) ||{}", sub(rng, used))
+        }
+        1 => {
+            used.push("and-rhs");
+            format!("(0 #Int< n) &&{}", sub(rng, used))
+        }
+        2 => {
+            used.push("if-then");
+            format!("if 0 #Int< n then{}\n{}else {}", sub(rng, used), pad(ind), f)
+        }
+        3 => {
+            used.push("if-else");
+            format!("if n #Int< 0 then {} else{}", f, sub(rng, used))
+        }
+        4 => {
+            used.push("match-literal");
+            format!("match n with\n{p}| 0 -> {f}\n{p}| _ ->{}", sub(rng, used), p = pad(ind), f = f)
+        }
+        5 => {
+            used.push("match-constructor");
+            format!("match Cons n Nil with\n{p}| Cons h t ->{}\n{p}| Nil -> {f}", sub(rng, used), p = pad(ind), f = f)
+        }
+        6 => {
+            used.push("match-record");
+            format!("match {{ a = n, b = 1 }} with\n{p}| {{ a, b }} ->{}", sub(rng, used), p = pad(ind))
+        }
+        7 => {
+            used.push("let-body");
+            format!("let m = n #Int+ 1 in{}", sub(rng, used))
+        }
+        8 => {
+            used.push("lambda-body");
+            format!("(\\u ->{}) n", sub(rng, used))
+        }
+        9 => {
+            used.push("match-variable");
+            format!("match n with\n{p}| k ->{}", sub(rng, used), p = pad(ind))
+        }
+        _ => {
+            used.push("or-and");
+            let inner2 = ind + 8;
+            format!(
+                "(n #Int== (0 #Int- 1)) ||\n{}((0 #Int< n) &&\n{}({}))",
+                pad(inner_ind),
+                pad(inner2),
+                nest(rng, d - 1, inner2, used)
+            )
+        }
+    }
+}
+
+/// A random nest (depth 1..5) of tail contexts around the recursive call of a Bool-valued loop:
+/// every wrapper keeps the value of the inner expression (for n > 0), so the program yields True.
+pub fn random_source(seed: u64, n: u64) -> (String, Vec<&'static str>) {
+    let mut rng = gv::rng::Rng::new(seed, 0xC07F);
+    let depth = 1 + rng.below(5);
+    let mut used = vec![];
+    let e = nest(&mut rng, depth, 8, &mut used);
+    (
+        format!("{}rec let loop n =\n    if n #Int< 1 then (0 #Int< 1) else\n        ({})\nloop {}\n", L_TYPE, e, n),
+        used,
+    )
+}
 
 pub fn source(name: &str, n: u64) -> String {
     match name {
@@ -45,19 +165,47 @@ pub fn source(name: &str, n: u64) -> String {
         // the loop continues through a partial application of itself
         "tail-partial" => format!(
             "rec let loop k n acc = if n #Int== 0 then acc else (loop k) (n #Int- 1) (acc #Int+ k)\nloop 1 {} 0\n", n),
+        "tail-or-rhs" => format!("rec let loop i n = i #Int== n || loop (i #Int+ 1) n\nloop 0 {}\n", n),
+        "tail-and-rhs" => format!("rec let loop i n = i #Int< n && loop (i #Int+ 1) n\nloop 0 {}\n", n),
+        "tail-if-then" => format!(
+            "rec let loop n acc = if 0 #Int< n then loop (n #Int- 1) (acc #Int+ 1) else acc\nloop {} 0\n", n),
+        "tail-match-literal" => format!(
+            "rec let loop n acc =\n    match n with\n    | 0 -> acc\n    | _ -> loop (n #Int- 1) (acc #Int+ 1)\nloop {} 0\n", n),
+        "tail-match-constructor" => format!(
+            "type St = | Stop | Go Int\nrec let loop x acc =\n    match x with\n    | Stop -> acc\n    | Go k -> loop (if k #Int< 2 then Stop else Go (k #Int- 1)) (acc #Int+ 1)\nloop (if {n} #Int< 1 then Stop else Go {n}) 0\n", n = n),
+        "tail-match-record" => format!(
+            "rec let loop r =\n    match r with\n    | {{ n, acc }} -> if n #Int== 0 then acc else loop {{ n = n #Int- 1, acc = acc #Int+ 1 }}\nloop {{ n = {}, acc = 0 }}\n", n),
+        "tail-match-variable" => format!(
+            "rec let loop n acc =\n    match n #Int- 1 with\n    | m -> if n #Int== 0 then acc else loop m (acc #Int+ 1)\nloop {} 0\n", n),
+        "tail-let-body" => format!(
+            "rec let loop n acc =\n    if n #Int== 0 then acc else\n        let m = n #Int- 1\n        let a = acc #Int+ 1\n        loop m a\nloop {} 0\n", n),
+        "tail-block-last" => format!(
+            "rec let loop n acc =\n    if n #Int== 0 then acc else\n        let _ = ()\n        let _ = acc\n        loop (n #Int- 1) (acc #Int+ 1)\nloop {} 0\n", n),
+        "tail-lambda-body" => format!(
+            "rec let loop n acc = if n #Int== 0 then acc else (\\m a -> loop m a) (n #Int- 1) (acc #Int+ 1)\nloop {} 0\n", n),
+        "tail-nested-bool" => format!(
+            "rec let loop i n = (i #Int== n) || ((i #Int< n) && ((n #Int< i) || loop (i #Int+ 1) n))\nloop 0 {}\n", n),
+        "tail-mutual-contexts" => format!(
+            "rec\nlet a n = n #Int== 0 || b (n #Int- 1)\nlet b n =\n    match n with\n    | 0 -> (0 #Int< 1)\n    | _ -> c (n #Int- 1)\nlet c n = n #Int== 0 || ((0 #Int< n) && (let m = n #Int- 1 in a m))\nin\na {}\n", n),
+        "tail-mutual-bool" => format!(
+            "rec\nlet p n = n #Int< 1 || q (n #Int- 1)\nlet q n = 0 #Int< n && p (n #Int- 1)\nin\np {}\n", n),
+        r if r.starts_with("tail-random:") => random_source(r["tail-random:".len()..].parse().unwrap(), n).0,
         _ => panic!("unknown family {}", name),
     }
 }
 
-pub fn expected_value(name: &str, n: u64) -> String {
+/// The value the family must produce (None: whatever the run without a limit produced).
+pub fn expected_value(name: &str, n: u64) -> Option<String> {
     let v = match name {
         "nontail-direct" | "nontail-closure" => n,
         "nontail-mutual" => n / 2 * 3 + (n % 2),
-        "tail-direct" | "tail-closure" | "tail-overapply" | "tail-partial" => n,
+        "tail-direct" | "tail-closure" | "tail-overapply" | "tail-partial" | "tail-if-then" | "tail-match-literal"
+        | "tail-match-constructor" | "tail-match-record" | "tail-match-variable" | "tail-let-body" | "tail-block-last"
+        | "tail-lambda-body" => n,
         "tail-mutual" => if n % 2 == 0 { 1 } else { 0 },
-        _ => unreachable!(),
+        _ => return None,
     };
-    format!("(int {})", v)
+    Some(format!("(int {})", v))
 }
 
 /// Script builder: tracks the height of every active frame so that body segments become
@@ -303,7 +451,67 @@ pub fn script(name: &str, n: u64, fns: &[FnDump]) -> Result<(String, String), Si
             });
             s.ret(2, None);
         }
-        _ => return Err(SimError(format!("no script for {}", name))),
+        "tail-mutual-bool" | "tail-mutual-contexts" => {
+            // a cycle of functions, each with exactly one tail call (to the next) and the final return
+            let names: &[&str] = if name == "tail-mutual-bool" { &["p", "q"] } else { &["a", "b", "c"] };
+            let ids: Vec<usize> = names.iter().map(|x| s.fn_named(x)).collect();
+            let mut tc = vec![];
+            let mut last = vec![];
+            for &f in &ids {
+                let exits: Vec<&Instruction> = fns[f]
+                    .instrs
+                    .iter()
+                    .filter(|i| matches!(i, Instruction::Call(_) | Instruction::TailCall(_) | Instruction::Return))
+                    .collect();
+                let t: Vec<usize> = exits.iter().enumerate().filter(|(_, i)| matches!(i, Instruction::TailCall(_))).map(|(k, _)| k).collect();
+                if t.len() != 1 || exits.iter().any(|i| matches!(i, Instruction::Call(_))) || !matches!(exits.last(), Some(Instruction::Return)) {
+                    return Err(SimError(format!("no cycle script for {}", name)));
+                }
+                tc.push(t[0]);
+                last.push(exits.len() - 1);
+            }
+            let k = ids.len() as u64;
+            s.tailcall(0, ids[0], 0, 0);
+            s.rep(n / k, |s| {
+                for j in 0..ids.len() {
+                    s.tailcall(tc[j], ids[(j + 1) % ids.len()], 0, 0);
+                }
+            });
+            let rem = (n % k) as usize;
+            for j in 0..rem {
+                s.tailcall(tc[j], ids[(j + 1) % ids.len()], 0, 0);
+            }
+            s.ret(last[rem % ids.len()], None);
+        }
+        "tail-lambda-body" => {
+            let f = s.fn_named("loop");
+            let lam = (0..fns.len()).find(|&i| fns[i].path.len() == 2).ok_or_else(|| SimError("no lambda".into()))?;
+            s.tailcall(0, f, 0, 0);
+            s.rep(n, |s| {
+                s.tailcall(0, lam, 0, 0);
+                s.tailcall(0, f, 0, 0);
+            });
+            s.ret(1, None);
+        }
+        _ => {
+            // generic self loop: one function `loop` whose only exits are one TailCall (to itself)
+            // and the final Return
+            let f = fns.iter().position(|f| f.name == "loop").ok_or_else(|| SimError(format!("no script for {}", name)))?;
+            let exits: Vec<&Instruction> = fns[f]
+                .instrs
+                .iter()
+                .filter(|i| matches!(i, Instruction::Call(_) | Instruction::TailCall(_) | Instruction::Return))
+                .collect();
+            let tcs: Vec<usize> = exits.iter().enumerate().filter(|(_, i)| matches!(i, Instruction::TailCall(_))).map(|(k, _)| k).collect();
+            let calls = exits.iter().filter(|i| matches!(i, Instruction::Call(_))).count();
+            if tcs.len() != 1 || calls != 0 || fns.len() != 2 || !matches!(exits.last(), Some(Instruction::Return)) {
+                return Err(SimError(format!("no generic script for {} ({} tail calls, {} calls, {} functions)", name, tcs.len(), calls, fns.len())));
+            }
+            let last = exits.len() - 1;
+            s.tailcall(0, f, 0, 0);
+            s.rep(n, |s| s.tailcall(tcs[0], f, 0, 0));
+            s.ret(last, None);
+        }
     }
     s.finish();
     Ok((s.tbl(), s.out.join(" ")))
